@@ -101,7 +101,9 @@ fn target_strategy(levels: usize, has_outside_links: bool) -> impl Strategy<Valu
     // shape C: the absolute path of a secret behind zero or more empty / dot segments ("/<abs>", "//<abs>", "/.//<abs>", "http://h/<abs>" ...):
     // joining it to the served directory must not replace the base
     let absolute = (proptest::collection::vec(prop_oneof![3 => Just(Seg::Empty), 1 => Just(Seg::Dot)], 0..3), any::<u16>()).prop_map(|(mut lead, k)| { lead.push(Seg::Lit(format!("\u{1}ABSSECRET{}", k))); lead });
-    let segs = if has_outside_links { prop_oneof![5 => climb, 2 => through_link, 3 => random, 2 => absolute].boxed() } else { prop_oneof![6 => climb, 4 => random, 2 => absolute].boxed() };
+    // shape D: a plain request for one of the tree's own symbolic links (shadow secrets wait where its text lands when resolved from the wrong directory)
+    let link_file = any::<u16>().prop_map(|k| vec![Seg::Lit(format!("\u{1}LINKFILE{}", k))]);
+    let segs = if has_outside_links { prop_oneof![5 => climb, 2 => through_link, 3 => random, 2 => absolute, 1 => link_file].boxed() } else { prop_oneof![6 => climb, 4 => random, 2 => absolute, 1 => link_file].boxed() };
     let enc = prop_oneof![7 => Just(0u16), 2 => any::<u16>(), 1 => Just(u16::MAX)];
     (0u8..16, segs, proptest::bool::weighted(0.2), 0u8..6, range_strategy(), proptest::bool::weighted(0.3), enc, 0u8..6, proptest::bool::weighted(0.25))
         .prop_map(|(prefix, segs, trailing_slash, suffix, range, legacy, enc_sep, enc_kind, binary)| Target { prefix, segs, trailing_slash, suffix, range, legacy, enc_sep, enc_kind, binary: binary && !legacy })
@@ -175,6 +177,12 @@ pub fn render(tree: &Tree, t: &Target) -> String {
                     let i: u16 = rest.parse().unwrap_or(0);
                     let sct = &tree.secrets[pick_idx(i, tree.secrets.len())];
                     for c in sct.abs.to_string_lossy().split('/').filter(|c| !c.is_empty()) { parts.push(c.to_string()); }
+                } else if let Some(rest) = l.strip_prefix("\u{1}LINKFILE") {
+                    // a plain request for a symbolic link inside the tree (to a file inside the root): whatever it resolves to must not be a secret
+                    let i: u16 = rest.parse().unwrap_or(0);
+                    let links: Vec<&crate::fw::tree::TFile> = tree.files.iter().filter(|f| f.kind == "link-to-file").collect();
+                    let pool: Vec<&crate::fw::tree::TFile> = if links.is_empty() { tree.files.iter().collect() } else { links };
+                    if !pool.is_empty() { for c in pool[pick_idx(i, pool.len())].url.trim_start_matches('/').split('/') { parts.push(c.to_string()); } }
                 } else if let Some(rest) = l.strip_prefix("\u{1}OUTLINK") {
                     let i: u16 = rest.parse().unwrap_or(0);
                     if !tree.outside_dir_links.is_empty() {
@@ -253,6 +261,7 @@ pub fn eval(ctx: &Ctx, p: &Prepared, t: &Target) -> Verdict {
     let ends_on_secret = p.tree.secrets.iter().any(|s| { let last = s.name.rsplit('/').next().unwrap_or(""); target.split(|c| c == '?' || c == '#').next().unwrap_or("").trim_end_matches('/').ends_with(last.trim_end_matches(".html")) });
     if climbs && ends_on_secret { classes.push("climbs-and-names-a-secret"); }
     if t.segs.iter().any(|s| matches!(s, Seg::Lit(l) if l.starts_with("\u{1}ABSSECRET"))) { classes.push("absolute-path-of-a-secret"); }
+    if t.segs.iter().any(|s| matches!(s, Seg::Lit(l) if l.starts_with("\u{1}LINKFILE"))) { classes.push("request-for-a-symbolic-link-of-the-tree"); }
     if target.contains("linked-area") || p.tree.outside_dir_links.iter().any(|(u, _)| target.contains(u.as_str())) { classes.push("through-owner-link"); }
     let mut problems = vec![];
     if discloses(&p.windows, &o.out) {
